@@ -218,5 +218,5 @@ static void one_case(vh::Ctx & c, uint64_t idx)
 
 int main(int argc, char ** argv)
 {
-  return vh::run(argc, argv, "C07", {4000, 600000}, one_case);
+  return vh::run(argc, argv, "C07", {16000, 600000}, one_case);
 }
